@@ -80,7 +80,34 @@ def run(ctx):
     # ---- node vectors
     graphs = [G.GraphGen(rng, dangling=rng.choice([0, 0.1, 0.3]), dup_names=rng.choice([0, 0.3]), weird_names=rng.choice([0, 0.3]),
                          n=rng.choice([0, 1, 1, 2, 3, 4, 6, 9])).build() for _ in range(ngraphs)]
-    glines = ["freeze " + G.schema_sx(g) for g in graphs] + ["fp " + G.schema_sx(g) for g in graphs]
+    # keys at the boundary held by nodes the root does not reach: the traversals from the root (fingerprint, JSON) never see them,
+    # only the node-by-node conversion of freeze does
+    def keys_of(x):
+        return [x.items] if x.t == "array" else [x.values] if x.t == "map" else list(x.variants) if x.t == "union" else \
+               [fk for _, fk in x.fields] if x.t == "record" else []
+    for _ in range(ngraphs // 6):
+        base = G.SchemaGen(rng, max_nodes=rng.choice([1, 3, 6]), max_depth=3).build() if rng.random() < 0.6 else \
+               G.GraphGen(rng, n=rng.choice([1, 2, 4])).build()
+        extra = rng.randint(1, 3)
+        total = len(base) + extra
+        g = list(base)
+        for i in range(extra):
+            key = lambda: rng.choice([total, total, total - 1, total + 1, len(g), 0])
+            h = rng.choice(["array", "map", "union", "union2", "record"])
+            if h == "array":
+                g.append(G.Node("array", items=key()))
+            elif h == "map":
+                g.append(G.Node("map", values=key()))
+            elif h == "union":
+                g.append(G.Node("union", variants=[key()]))
+            elif h == "union2":
+                g.append(G.Node("union", variants=[0, key()]))
+            else:
+                g.append(G.Node("record", name="x.Unreached%d" % i, fields=[("a", 0), ("b", key())]))
+        graphs.append(g)
+    glines = ["freeze " + G.schema_sx(g) for g in graphs] + ["fp " + G.schema_sx(g) for g in graphs] + \
+             ["tojson " + G.schema_sx(g) for g in graphs]        # tojson: the JSON writer alone (freeze reaches it only after the fingerprint pass)
+    gof = {l: g for l, g in zip(glines, graphs)}
     gi = C.run_parallel(C.AVRODRIVE, glines, timeout=240)
     gm = C.run_parallel(C.AVROMODEL, glines, timeout=240)
     use_lines = []
@@ -94,6 +121,13 @@ def run(ctx):
         if not C.same_outcome(ri, rm):
             diffs.append({"impl_case": line, "model_case": line, "impl": ri[:400], "model": rm[:400]})
         if k == "ok" and line.startswith("freeze "):
+            g = gof[line]
+            if any(key >= len(g) for x in g for key in keys_of(x)):
+                # C19_freeze_keys: freeze succeeds only if every key of every node (reachable from the root or not) is in range --
+                # the hypothesis under which using the frozen schema is safe; Ok here means a node reference past the node storage
+                violations.append({"impl_case": line, "what": "freeze returned Ok for a node vector holding a key that is out of range "
+                                   "(the frozen schema holds a reference outside its node storage)", "model": rm[:100]})
+                continue
             sch = line[len("freeze "):]
             # whenever freezing succeeds the schema can be used safely: hostile bytes and arbitrary presentations
             for _ in range(2):
@@ -147,6 +181,19 @@ def run(ctx):
                 texts.append("".join('{"type":"record","name":"R%d","fields":[{"name":"f","type":' % i for i in range(d)) + (inner or '"int"') + "}]}" * d)
         else:
             texts.append(diamond(rng.choice([3, 10, 24, 40, 60])))
+    # records containing themselves: unconditionally (must be an error -- not a hang or a stack overflow -- wherever the cycle sits:
+    # through the outermost record, strictly below it, below an envelope, one record or several) or only through unions / arrays / maps
+    import p_C07
+    for _ in range(ntexts // 3):
+        if rng.random() < 0.7:
+            doc, _unc = D.cycle_doc(rng)
+        else:
+            nodes = G.SchemaGen(rng, max_nodes=rng.choice([2, 6]), max_depth=3, namespaces=("", "a")).build()
+            inv = None
+            while inv is None or "cycle" not in inv[0]:
+                inv = p_C07.invalidate(rng, D.DocGen(rng, nodes).gen(0, None))
+            doc = inv[1]
+        texts.append(D.to_text(doc, rng))
     tlines = ["parse " + C.hx(t) for t in texts]
     ti = C.run_parallel(C.AVRODRIVE, tlines, timeout=240)
     mlines, midx = [], []
@@ -176,9 +223,11 @@ def run(ctx):
             if C.show_sx(pi[1]) != C.show_sx(pm[1]) or pi[2] != pm[2] or pi[3] != pm[3]:
                 diffs.append({"impl_case": tlines[i][:3000], "model_case": mlines[midx.index(i)][:3000], "impl": ri[:300], "model": rm[:300]})
     return {"evaluations": len(glines) + len(use_lines) + len(tlines), "distinct_nontrivial": len(distinct),
-            "rule": "node vectors over the public node types with arbitrary keys (dangling, self-referencing, shared), empty vectors, duplicate "
-                    "and degenerate names, logical annotations anywhere: freeze and fingerprint must return Ok/Err (each run in a process whose "
+            "rule": "node vectors over the public node types with arbitrary keys (dangling, self-referencing, shared; keys at the boundary len-1 / len / len+1 "
+                    "held by nodes the root does not reach: freeze Ok => every key in range, C19_freeze_keys), empty vectors, duplicate "
+                    "and degenerate names, logical annotations anywhere: freeze, fingerprint and JSON rendering (serde_json::to_string(&SchemaMut), writer limited to 4 MiB) must return Ok/Err (each run in a process whose "
                     "death or timeout is a result); every frozen schema is then used on hostile bytes (small limits) and arbitrary presentations; "
                     "texts: random JSON of schema-like shape, valid documents damaged at the text level, nesting 1..5000 (127/128/129 around "
-                    "serde_json's limit), the nested-shared-record family up to depth 60 (cycle check cost); model vs crate wherever the text has an AST",
+                    "serde_json's limit), the nested-shared-record family up to depth 60 (cycle check cost), records containing themselves (unconditionally = error, or only through "
+                    "unions / arrays / maps = accepted; cycle through the outermost record or strictly below it, several records, envelopes, namespaces); model vs crate wherever the text has an AST",
             "samples": samples, "violations": violations, "model_diffs": diffs, "distribution": dict(dist)}
